@@ -74,6 +74,11 @@ UNIT = dict(
             tiers=tiers, cls='shape-complete', timeout=3000,
             note='finalized ring with ANY number (< 2^40) of burnt tail tickets: the retry loops of dequeue are complete within 3*CAP iterations because every drawn ticket costs one unit of threshold (unwinding assertions)')
        for op in ('enq', 'deq') for c, tiers in ((1, ['quick', 'thorough']), (2, ['thorough']))
+  ] + [dict(id='deq_c1_f1_anygap_r%d' % r, entry='h_deq', defs={'CAP': 1, 'Finalizable': 1, 'GAP_ANY': 1, 'PopRetries': r}, unwind=5,
+            unwindset=['scq_enqueue.0:2', 'scq_enqueue.1:2', 'scq_catchup.0:2', 'scq_dequeue.0:%d' % (4 * (r + 1)), 'scq_dequeue.1:%d' % (r + 2), 'scq_dequeue.2:%d' % (4 * (r + 1))],
+            tiers=['quick', 'thorough'], cls='shape-complete', timeout=3000, unwind_obligation='scq.dequeue.retries_bounded',
+            note='template parameter PopRetries = %d (the library default is 1000; the other runs use 1): a dequeue re-reads an unpublished slot at most PopRetries times per ticket and then moves on - it never waits for the enqueuer that owns the ticket (unwinding assertions)' % r)
+       for r in (0, 2)
   ] + [dict(id='enq_overtaken_c%d' % c, entry='h_enq_overtaken', defs={'CAP': c, 'Finalizable': 0, 'G': 0}, unwind=2 * c + 2,
             unwindset=['scq_enqueue.0:2', 'scq_enqueue.1:3'], tiers=tiers, cls='shape-complete',
             note='mid-operation state: empty ring, a dequeuer holds head ticket T = tail and has passed slot(T)')
@@ -100,6 +105,7 @@ UNIT = dict(
     'scq.enqueue.finalized_fails': dict(deciding=True, text='enqueue<.,true> on a finalized ring always returns false, and no enqueue changes the finalized bit'),
     'scq.finalize.sets': dict(deciding=True, text='finalize sets the finalized bit and nothing else; set_threshold(3cap-1) keeps Inv_S'),
     'scq.enqueue.skips_overtaken': dict(deciding=True, text='if a dequeuer has already drawn head ticket T = tail and passed slot(T) (lifted it to cycle(T), or marked it unsafe), enqueue does not publish in slot(T) but at ticket T+1, where head is'),
+    'scq.dequeue.retries_bounded': dict(deciding=True, text='[SOLO] for PopRetries = 0 and 2: dequeue re-reads the slot of its head ticket at most PopRetries times while the owner of that ticket has not published, then closes the slot and moves on; with every drawn ticket costing one unit of threshold the call returns within the unwinding bound - it never waits for another thread'),
     'scq.catchup.restores': dict(deciding=True, text='catchup(tail, head) with tail behind head moves the tail position to the head position and writes nothing else'),
   },
   replays={k: dict(src='replay_scq.cpp') for k in ('scq.enqueue.appends', 'scq.dequeue.takes_first', 'scq.dequeue.empty_iff', 'scq.inv.preserved', 'scq.catchup.keeps_finalized', 'scq.enqueue.finalized_fails', 'scq.dequeue.blocks_ticket', 'scq.enqueue.skips_overtaken')},
